@@ -88,7 +88,7 @@ def Op.isSeek : Op → Bool
   | _ => false
 
 /-- a history without seeks -/
-def NoSeek (ops : List Op) : Prop := ∀ op ∈ ops, op.isSeek = false
+def SeekFree (ops : List Op) : Prop := ∀ op ∈ ops, op.isSeek = false
 
 /-- how many records an observation delivers to the caller, read off the observation alone
 (a `dump` re-shows records, it does not deliver any) -/
@@ -509,22 +509,22 @@ theorem execA_append {it : Items} : ∀ {a a' : AState} {ops₁ ops₂ : List Op
     obtain ⟨a₂, h3, h4⟩ := execA_append (by simpa using hl) h2
     exact ⟨a₂, by simp only [execA, h1, h3], h4⟩
 
-theorem NoSeek.head {op : Op} {ops : List Op} (h : NoSeek (op :: ops)) : op.isSeek = false :=
+theorem SeekFree.head {op : Op} {ops : List Op} (h : SeekFree (op :: ops)) : op.isSeek = false :=
   h op (by simp)
 
-theorem NoSeek.tail {op : Op} {ops : List Op} (h : NoSeek (op :: ops)) : NoSeek ops :=
+theorem SeekFree.tail {op : Op} {ops : List Op} (h : SeekFree (op :: ops)) : SeekFree ops :=
   fun x hx => h x (by simp [hx])
 
-theorem NoSeek.left {ops₁ ops₂ : List Op} (h : NoSeek (ops₁ ++ ops₂)) : NoSeek ops₁ :=
+theorem SeekFree.left {ops₁ ops₂ : List Op} (h : SeekFree (ops₁ ++ ops₂)) : SeekFree ops₁ :=
   fun x hx => h x (by simp [hx])
 
-theorem NoSeek.right {ops₁ ops₂ : List Op} (h : NoSeek (ops₁ ++ ops₂)) : NoSeek ops₂ :=
+theorem SeekFree.right {ops₁ ops₂ : List Op} (h : SeekFree (ops₁ ++ ops₂)) : SeekFree ops₂ :=
   fun x hx => h x (by simp [hx])
 
 /-- **(1a)** Along an accepted history without seeks the cursor only moves forward, by exactly
 the number of records the observations deliver. -/
 theorem accept_cursor_mono_noseek {it : Items} : ∀ {a a' : AState} {ops : List Op} {obs : List ObsH},
-    NoSeek ops → execA it a ops obs = some a' →
+    SeekFree ops → execA it a ops obs = some a' →
     deliveredA a' = deliveredA a + deliveredCounts ops obs
   | a, a', [], [], _, h => by simp only [execA, Option.some.injEq] at h; subst h; rfl
   | _, _, [], _ :: _, _, h => by simp [execA] at h
@@ -537,7 +537,7 @@ theorem accept_cursor_mono_noseek {it : Items} : ∀ {a a' : AState} {ops : List
     omega
 
 theorem cursor_le_of_accepted {it : Items} {a a' : AState} {ops : List Op} {obs : List ObsH}
-    (hns : NoSeek ops) (h : execA it a ops obs = some a') : a.k ≤ a'.k := by
+    (hns : SeekFree ops) (h : execA it a ops obs = some a') : a.k ≤ a'.k := by
   have := accept_cursor_mono_noseek hns h
   simp only [deliveredA] at this
   omega
@@ -546,7 +546,7 @@ theorem cursor_le_of_accepted {it : Items} {a a' : AState} {ops : List Op} {obs 
 calls – is the segment `recs[k₀], …, recs[k₁ - 1]` of the records of S between the cursor before
 and the cursor after the history: in order, without gaps, without repetition. -/
 theorem accepted_delivers_segment {it : Items} : ∀ {a a' : AState} {ops : List Op} {obs : List ObsH},
-    NoSeek ops → execA it a ops obs = some a' →
+    SeekFree ops → execA it a ops obs = some a' →
     deliveredRecs it a ops obs = segment it a.k a'.k
   | a, a', [], [], _, h => by
     simp only [execA, Option.some.injEq] at h; subst h
@@ -563,7 +563,7 @@ theorem accepted_delivers_segment {it : Items} : ∀ {a a' : AState} {ops : List
 
 /-- from the initial state: what has been delivered is a prefix of the records of S -/
 theorem accepted_delivers_prefix {it : Items} {a' : AState} {ops : List Op} {obs : List ObsH}
-    (hns : NoSeek ops) (h : execA it aInit ops obs = some a') :
+    (hns : SeekFree ops) (h : execA it aInit ops obs = some a') :
     deliveredRecs it aInit ops obs = (it.recs.take a'.k).map view := by
   rw [accepted_delivers_segment hns h]
   simp [segment, aInit]
@@ -697,7 +697,7 @@ theorem accept_atEnd {it : Items} {a a' : AState} {op : Op} {o : ObsH}
   | seekRec i => simp [Op.isSeek] at hop
 
 theorem atEnd_forever {it : Items} : ∀ {a a' : AState} {ops : List Op} {obs : List ObsH},
-    NoSeek ops → AtEnd it a → execA it a ops obs = some a' →
+    SeekFree ops → AtEnd it a → execA it a ops obs = some a' →
     AtEnd it a' ∧ ∀ p ∈ ops.zip obs, p.1.reads a.sets.length = true → p.2 = .none
   | a, a', [], [], _, he, h => by
     simp only [execA, Option.some.injEq] at h; subst h
@@ -741,7 +741,7 @@ delivered before is *all* the rest of the records, nothing is lost –, no forma
 and every later reading operation reports the end again (and delivers nothing). -/
 theorem accepted_none_means_all {it : Items} {a a' : AState} {ops₁ ops₂ : List Op}
     {obs₁ obs₂ : List ObsH} {op : Op}
-    (hk : a.k ≤ it.recs.length) (hns : NoSeek (ops₁ ++ op :: ops₂))
+    (hk : a.k ≤ it.recs.length) (hns : SeekFree (ops₁ ++ op :: ops₂))
     (hlen : ops₁.length = obs₁.length)
     (h : execA it a (ops₁ ++ op :: ops₂) (obs₁ ++ .none :: obs₂) = some a') :
     ∃ a₁, execA it a ops₁ obs₁ = some a₁ ∧
@@ -1042,7 +1042,7 @@ theorem accepted_dump_fresh {it : Items} {a' : AState} {j : Nat}
 /-- **(5)** After an accepted seek to record `i` the cursor is `i`; the reads that follow (up to
 the next seek) deliver `recs[i], recs[i+1], …` in order, each once. -/
 theorem accepted_after_seek {it : Items} {a a' : AState} {i : Nat} {o : ObsH}
-    {ops : List Op} {obs : List ObsH} (hi : i < it.recs.length) (hns : NoSeek ops)
+    {ops : List Op} {obs : List ObsH} (hi : i < it.recs.length) (hns : SeekFree ops)
     (h : execA it a (.seekRec i :: ops) (o :: obs) = some a') :
     o = .done ∧
     a'.k = i + deliveredCounts ops obs ∧
@@ -1064,7 +1064,7 @@ theorem accepted_after_seek {it : Items} {a a' : AState} {i : Nat} {o : ObsH}
 then what was delivered along it is a contiguous run of the records of S starting at the initial
 cursor, in order, each exactly once, and the cursor has advanced by their number. -/
 theorem runA_delivers {it : Items} {a : AState} {ops : List Op} {obs : List ObsH}
-    (hns : NoSeek ops) (h : runA it a ops obs = true) :
+    (hns : SeekFree ops) (h : runA it a ops obs = true) :
     ∃ a', execA it a ops obs = some a' ∧
       a'.k = a.k + deliveredCounts ops obs ∧
       deliveredRecs it a ops obs = ((it.recs.drop a.k).take (deliveredCounts ops obs)).map view := by
@@ -1127,7 +1127,7 @@ def Op.isSeek : Op → Bool
   | .seekItem _ => true
   | _ => false
 
-def NoSeek (ops : List Op) : Prop := ∀ op ∈ ops, op.isSeek = false
+def SeekFree (ops : List Op) : Prop := ∀ op ∈ ops, op.isSeek = false
 
 /-- no error is observed -/
 def NoErrObs (obs : List ObsH) : Prop := ∀ e, ObsH.error e ∉ obs
@@ -1479,16 +1479,16 @@ theorem execA_append {items : List FqItem} :
     obtain ⟨a₂, h3, h4⟩ := execA_append (by simpa using hl) h2
     exact ⟨a₂, by simp only [execA, h1, h3], h4⟩
 
-theorem NoSeek.head {op : Op} {ops : List Op} (h : NoSeek (op :: ops)) : op.isSeek = false :=
+theorem SeekFree.head {op : Op} {ops : List Op} (h : SeekFree (op :: ops)) : op.isSeek = false :=
   h op (by simp)
 
-theorem NoSeek.tail {op : Op} {ops : List Op} (h : NoSeek (op :: ops)) : NoSeek ops :=
+theorem SeekFree.tail {op : Op} {ops : List Op} (h : SeekFree (op :: ops)) : SeekFree ops :=
   fun x hx => h x (by simp [hx])
 
-theorem NoSeek.left {ops₁ ops₂ : List Op} (h : NoSeek (ops₁ ++ ops₂)) : NoSeek ops₁ :=
+theorem SeekFree.left {ops₁ ops₂ : List Op} (h : SeekFree (ops₁ ++ ops₂)) : SeekFree ops₁ :=
   fun x hx => h x (by simp [hx])
 
-theorem NoSeek.right {ops₁ ops₂ : List Op} (h : NoSeek (ops₁ ++ ops₂)) : NoSeek ops₂ :=
+theorem SeekFree.right {ops₁ ops₂ : List Op} (h : SeekFree (ops₁ ++ ops₂)) : SeekFree ops₂ :=
   fun x hx => h x (by simp [hx])
 
 theorem NoErrObs.head {o : ObsH} {os : List ObsH} (h : NoErrObs (o :: os)) : ∀ e, o ≠ .error e :=
@@ -1501,7 +1501,7 @@ theorem NoErrObs.tail {o : ObsH} {os : List ObsH} (h : NoErrObs (o :: os)) : NoE
 moves forward by exactly the number of records the observations deliver. -/
 theorem accept_cursor_mono_noseek {items : List FqItem} :
     ∀ {a a' : AState} {ops : List Op} {obs : List ObsH},
-    NoSeek ops → NoErrObs obs → execA items a ops obs = some a' →
+    SeekFree ops → NoErrObs obs → execA items a ops obs = some a' →
     deliveredA a' = deliveredA a + deliveredCounts ops obs
   | a, a', [], [], _, _, h => by simp only [execA, Option.some.injEq] at h; subst h; rfl
   | _, _, [], _ :: _, _, _, h => by simp [execA] at h
@@ -1514,7 +1514,7 @@ theorem accept_cursor_mono_noseek {items : List FqItem} :
     omega
 
 theorem cursor_le_of_accepted {items : List FqItem} {a a' : AState} {ops : List Op} {obs : List ObsH}
-    (hns : NoSeek ops) (hne : NoErrObs obs) (h : execA items a ops obs = some a') : a.k ≤ a'.k := by
+    (hns : SeekFree ops) (hne : NoErrObs obs) (h : execA items a ops obs = some a') : a.k ≤ a'.k := by
   have := accept_cursor_mono_noseek hns hne h
   simp only [deliveredA] at this
   omega
@@ -1525,7 +1525,7 @@ cursor before and the cursor after the history, and all these items are records:
 delivered in order, without gaps, without repetition. -/
 theorem accepted_delivers_segment {items : List FqItem} :
     ∀ {a a' : AState} {ops : List Op} {obs : List ObsH},
-    NoSeek ops → NoErrObs obs → execA items a ops obs = some a' →
+    SeekFree ops → NoErrObs obs → execA items a ops obs = some a' →
     IsSegment items a.k a'.k (deliveredRecs items a ops obs)
   | a, a', [], [], _, _, h => by
     simp only [execA, Option.some.injEq] at h; subst h
@@ -1551,7 +1551,7 @@ theorem cursor_le_length {items : List FqItem} : ∀ {a a' : AState} {ops : List
 
 /-- the same, record by record: the `q`-th delivered record is item number `k₀ + q` of S -/
 theorem accepted_delivers_nth {items : List FqItem} {a a' : AState} {ops : List Op} {obs : List ObsH}
-    (hns : NoSeek ops) (hne : NoErrObs obs) (h : execA items a ops obs = some a')
+    (hns : SeekFree ops) (hne : NoErrObs obs) (h : execA items a ops obs = some a')
     (q : Nat) (hq : q < (deliveredRecs items a ops obs).length) :
     ∃ x, items[a.k + q]? = some (.record x) ∧ (deliveredRecs items a ops obs)[q]? = some (recOf x) :=
   (accepted_delivers_segment hns hne h).get q hq
@@ -1594,7 +1594,7 @@ theorem accept_atEnd {items : List FqItem} {a a' : AState} {op : Op} {o : ObsH}
   | seekItem i => simp [Op.isSeek] at hop
 
 theorem atEnd_forever {items : List FqItem} : ∀ {a a' : AState} {ops : List Op} {obs : List ObsH},
-    NoSeek ops → AtEnd items a → execA items a ops obs = some a' →
+    SeekFree ops → AtEnd items a → execA items a ops obs = some a' →
     a'.k = a.k ∧ ∀ p ∈ ops.zip obs, p.1.reads = true → p.2 = .none
   | a, a', [], [], _, _, h => by
     simp only [execA, Option.some.injEq] at h; subst h
@@ -1649,7 +1649,7 @@ If moreover no error was observed before, then all the items from the initial cu
 records and exactly these were delivered: nothing is lost. -/
 theorem accepted_none_means_all {items : List FqItem} {a a' : AState} {ops₁ ops₂ : List Op}
     {obs₁ obs₂ : List ObsH} {op : Op}
-    (hk : a.k ≤ items.length) (hns : NoSeek (ops₁ ++ op :: ops₂))
+    (hk : a.k ≤ items.length) (hns : SeekFree (ops₁ ++ op :: ops₂))
     (hlen : ops₁.length = obs₁.length)
     (h : execA items a (ops₁ ++ op :: ops₂) (obs₁ ++ .none :: obs₂) = some a') :
     ∃ a₁, execA items a ops₁ obs₁ = some a₁ ∧
@@ -1727,7 +1727,7 @@ single-record read).  Afterwards every reading operation reports the end of the 
 error is reported once.  If the error item is the last item, nothing follows it. -/
 theorem accepted_error_once {items : List FqItem} {a a' : AState} {ops₁ ops₂ : List Op}
     {obs₁ obs₂ : List ObsH} {op : Op} {e : Err}
-    (hns : NoSeek (ops₁ ++ op :: ops₂)) (hlen : ops₁.length = obs₁.length)
+    (hns : SeekFree (ops₁ ++ op :: ops₂)) (hlen : ops₁.length = obs₁.length)
     (h : execA items a (ops₁ ++ op :: ops₂) (obs₁ ++ .error e :: obs₂) = some a') :
     ∃ a₁, execA items a ops₁ obs₁ = some a₁ ∧
       op.reads = true ∧
@@ -2002,7 +2002,7 @@ theorem accepted_dump_snapshot_or_empty {items : List FqItem} {a a' : AState} {j
 the next seek or error) deliver the items `i, i+1, …` in order, each once, and all of them are
 records. -/
 theorem accepted_after_seek {items : List FqItem} {a a' : AState} {i : Nat} {o : ObsH}
-    {ops : List Op} {obs : List ObsH} (hi : i < items.length) (hns : NoSeek ops) (hne : NoErrObs obs)
+    {ops : List Op} {obs : List ObsH} (hi : i < items.length) (hns : SeekFree ops) (hne : NoErrObs obs)
     (h : execA items a (.seekItem i :: ops) (o :: obs) = some a') :
     o = .done ∧
     a'.k = i + deliveredCounts ops obs ∧
@@ -2065,7 +2065,7 @@ and without an error observation, then what was delivered along it is a contiguo
 of S starting at the initial cursor, all of them records, in order, each exactly once, and the
 cursor has advanced by their number. -/
 theorem acceptsA_delivers {items : List FqItem} {a : AState} {ops : List Op} {obs : List ObsH}
-    (hns : NoSeek ops) (hne : NoErrObs obs) (h : acceptsA items a ops obs = true) :
+    (hns : SeekFree ops) (hne : NoErrObs obs) (h : acceptsA items a ops obs = true) :
     ∃ a', execA items a ops obs = some a' ∧
       a'.k = a.k + deliveredCounts ops obs ∧
       IsSegment items a.k (a.k + deliveredCounts ops obs) (deliveredRecs items a ops obs) := by
